@@ -11,7 +11,7 @@ def main():
     c = REGISTRY.get(qual)
     ex = Executor()
     import os
-    if os.environ.get('GIVC_TRACE'): ex.trace_branches = []
+    if os.environ.get('GIVC_TRACE'): ex.trace_branches = []; ex.debug_assumed = []
     t0=time.time()
     obs = ex.verify(c)
     print('generated', len(obs), 'obligations in %.2fs'%(time.time()-t0))
@@ -40,6 +40,14 @@ def main():
                 for (ln, fn, cnd, g) in ex.trace_branches:
                     if z3.is_true(r.model.eval(g, model_completion=True)):
                         print('     TRACE %s:%d cond=%s  %s' % (fn.split('.')[-1], ln, r.model.eval(cnd, model_completion=True), str(cnd).replace('\n',' ')[:150]))
+            if os.environ.get('GIVC_TRACE') and r.name in os.environ.get('GIVC_PROBE_OB', r.name):
+                for (q, nm, ln, wd, tr, g) in ex.debug_assumed:
+                    ev = lambda t: r.model.eval(t, model_completion=True)
+                    print('     ASSUMED %s:%s@%d guard=%s wd=%s truth=%s' % (q.split('.')[-1], nm, ln, ev(g), ev(wd), ev(tr)))
+            if os.environ.get('GIVC_WHY') and r.name in os.environ.get('GIVC_PROBE_OB', r.name):
+                from givc.explain import explain_bool
+                ob = [o for o in ex.obligations if o.name == r.name][0]
+                print('\n'.join(explain_bool(r.model, ob.cond, maxd=int(os.environ['GIVC_WHY']))))
             if os.environ.get('GIVC_CONSTS') and r.name in os.environ.get('GIVC_PROBE_OB', r.name):
                 for d in r.model.decls():
                     if any(k in d.name() for k in os.environ['GIVC_CONSTS'].split(',')) and d.arity()==0:
